@@ -13,8 +13,22 @@ import types
 import numpy as np
 
 
+# MODE['rng']: 'merge' (live decided values relative to the position; for state merging) or 'pos' (stream position only; purity oracle)
+# MODE['fdigits']: None = bit-exact floats; an int = floats rounded to that many significant digits (chunking comparisons)
+MODE = {"rng": "merge", "fdigits": None}
+
+
+def _rf(x):
+    d = MODE["fdigits"]
+    if d is None or x != x or x in (float("inf"), float("-inf")) or x == 0:
+        return repr(x)
+    return "%.*e" % (d - 1, x)
+
+
 def _arr(a):
     a = np.asarray(a)
+    if MODE["fdigits"] is not None and a.dtype.kind == "f":
+        return ("ndarray-r", a.shape, tuple(_rf(float(x)) for x in a.ravel()))
     if a.dtype == object:
         return ("ndarray-o", a.shape, tuple(canon(x) for x in a.ravel().tolist()))
     # NaN payloads are normalised by going through repr for floats only when
@@ -30,13 +44,19 @@ def canon(obj, _memo=None, _depth=0, skip=()):
     if obj is None or isinstance(obj, (bool, int, str, bytes)):
         return obj
     if isinstance(obj, float):
-        return ("f", repr(obj))
+        return ("f", _rf(obj))
     if isinstance(obj, complex):
         return ("c", repr(obj))
     if isinstance(obj, np.generic):
+        if obj.dtype.kind == "f":
+            return ("f", _rf(float(obj)))
         return ("np", str(obj.dtype), repr(obj.item()) if obj.dtype != object else canon(obj.item()))
     if isinstance(obj, np.ndarray):
         return _arr(obj)
+    if isinstance(obj, np.random.RandomState) and hasattr(obj, "canon_state"):
+        if MODE["rng"] == "pos":
+            return ("StreamRNG-pos", obj.pos)
+        return ("StreamRNG", obj.canon_state())
     if isinstance(obj, np.random.RandomState):
         st = obj.get_state(legacy=True)
         return ("RandomState", type(obj).__name__, st[0], st[1].tobytes(), st[2], st[3], repr(st[4]),
